@@ -26,6 +26,7 @@ type linOp struct {
 	Cls    string      `json:"cls"`
 	Res    string      `json:"res"`
 	RV     string      `json:"rv"`
+	N      int         `json:"n"`
 	Call   int64       `json:"call"`
 	Ret    int64       `json:"ret"`
 	Visits [][2]string `json:"visits,omitempty"` // Walk: (key, value) in visiting order
@@ -434,4 +435,132 @@ func TestLinStalled(t *testing.T) {
 	}
 
 	res.Extra["stall_observed"] = stalledOK
+}
+
+// TestLinPileup records DIRECTED single-key histories: many goroutines are queued behind the lock of the key's shard
+// (held by a writer of ANOTHER key of the same shard that is parked in its stats call-out) and released together, so
+// that their critical sections collide; the history ends with the cache_delete total.  Judged by MonLin (Mode "lin" for
+// C08, Mode "metrics" for C18: cache_delete must equal the number of entries actually removed).
+func TestLinPileup(t *testing.T) {
+	outp := os.Getenv("VERIF_TRACE_OUT")
+	if outp == "" || os.Getenv("VERIF_LINPILE") == "" {
+		t.Skip("VERIF_LINPILE not set")
+	}
+
+	seed := envInt("VERIF_SEED", 1)
+	n := int(envInt("VERIF_N", 60))
+	res := Result{Extra: map[string]interface{}{}}
+
+	defer func() { mustNoErr(writeJSON(os.Getenv("VERIF_OUT"), res), "write result") }()
+
+	f, err := os.Create(outp)
+	mustNoErr(err, "trace out")
+
+	defer f.Close()
+
+	enc := json.NewEncoder(f)
+
+	for hi := 0; hi < n; hi++ {
+		rng := rand.New(rand.NewSource(seed*6151 + int64(hi))) //nolint:gosec
+		kind := Kinds[hi%3]
+		bucket := uint64(rng.Intn(128))
+		two := keysByBucket(fmt.Sprintf("p%d", hi), bucket, bucket, 2)
+		key, blocker := two[0], two[1]
+
+		stat := NewStatRec()
+		entered := make(chan struct{})
+		release := make(chan struct{})
+
+		stat.Hook = func(ctx context.Context, metric, name string, val float64) {
+			if metric == cache.MetricWrite && ctx.Value(blockMark{}) != nil {
+				close(entered)
+				<-release
+			}
+		}
+
+		be := NewBackend(kind, cache.Config{Name: "lin", Stats: stat, TimeToLive: time.Hour, ExpirationJitter: -1,
+			DeleteExpiredJobInterval: 100000 * time.Hour, ItemsCountReportInterval: 100000 * time.Hour})
+
+		var (
+			stamp int64
+			mu    sync.Mutex
+			ops   []linOp
+			idc   int64
+			wg    sync.WaitGroup
+		)
+
+		one := func(g int, what string) {
+			op := linOp{ID: int(atomic.AddInt64(&idc, 1)), G: g, Op: what, K: "k1"}
+
+			switch what {
+			case "Write":
+				op.V, op.Cls = fmt.Sprintf("g%d.%d", g, op.ID), "fresh"
+				op.Call = atomic.AddInt64(&stamp, 1)
+				_ = be.Write(context.Background(), key, op.V)
+				op.Ret = atomic.AddInt64(&stamp, 1)
+			case "Read":
+				op.Call = atomic.AddInt64(&stamp, 1)
+				rr := be.Read(context.Background(), key)
+				op.Ret = atomic.AddInt64(&stamp, 1)
+				op.Res, op.RV = rr.Class, rr.V
+			case "Delete":
+				op.Call = atomic.AddInt64(&stamp, 1)
+				err := be.Delete(context.Background(), key)
+				op.Ret = atomic.AddInt64(&stamp, 1)
+
+				op.Res = "ok"
+				if err != nil {
+					op.Res = "notfound"
+				}
+			}
+
+			mu.Lock()
+			ops = append(ops, op)
+			mu.Unlock()
+		}
+
+		one(0, "Write")
+
+		// the blocker holds the shard lock (sharded maps); SyncMap has no lock to hold: plain simultaneous start
+		go func() {
+			_ = be.Write(context.WithValue(context.Background(), blockMark{}, true), blocker, "blocker")
+		}()
+
+		<-entered
+
+		G := 3 + rng.Intn(6)
+		startc := make(chan struct{})
+
+		for g := 1; g <= G; g++ {
+			wg.Add(1)
+
+			what := []string{"Delete", "Delete", "Delete", "Read", "Write"}[rng.Intn(5)]
+
+			go func(g int, what string) {
+				defer wg.Done()
+
+				<-startc
+				one(g, what)
+			}(g, what)
+		}
+
+		close(startc)
+		time.Sleep(time.Duration(200+rng.Intn(800)) * time.Microsecond) // let them queue up behind the shard lock
+		close(release)
+		wg.Wait()
+
+		one(0, "Read")
+
+		md := linOp{ID: int(atomic.AddInt64(&idc, 1)), Op: "MetricDelete", K: "k1", N: stat.Total(cache.MetricDelete, "lin")}
+		md.Call = atomic.AddInt64(&stamp, 1)
+		md.Ret = atomic.AddInt64(&stamp, 1)
+		ops = append(ops, md)
+
+		sort.Slice(ops, func(i, j int) bool { return ops[i].Call < ops[j].Call })
+
+		_ = enc.Encode(map[string]interface{}{"h": 200000 + hi, "kind": kind, "collide": false, "goroutines": G, "ops": ops,
+			"keys": []string{"k1"}, "evict": false})
+		res.Evaluations++
+		res.Steps += len(ops)
+	}
 }
